@@ -312,6 +312,11 @@ static inline int readline_putchar(struct readline *rl, char c)
 static inline int
 readline_linecpy(struct readline *rl, char *line, size_t maxlen)
 {
+    // no room even for the terminator: nothing can be written
+    // (len would be -1: memcpy of SIZE_MAX bytes)
+    if (maxlen == 0)
+        return 0;
+
     int len = (int)maxlen - 1 > (int)rl->line.len ? (int)rl->line.len
                                                   : (int)maxlen - 1;
 
